@@ -115,7 +115,7 @@ VOCAB = {
     'management_ip': [lambda: '10.0.0.1', lambda: '2001:db8::1'],
     'allocation_constraints': [lambda: 'constraint text'],
     'image_type': [lambda: 'qcow2'],
-    'image_ref': [lambda: 'default_centos_8'],
+    'image_ref': [lambda: 'default_centos_8', lambda: 'images/centos, stream 8'],
     'service_endpoint': [lambda: 'https://host:8080/path'],
     'site': [lambda: 'RENC', lambda: 'S 1'],
     'location': [lambda: Location(postal='100 Europa Dr'), lambda: Location(lat=0.0, lon=-79.05)],
